@@ -45,6 +45,22 @@ def window_is(fn, atom, pol, subst):
     return op if pol else q.NEG[op]
 
 
+def retransmit_route_rule(run):
+    """A segment handed back by a dropping hop has had its route consumed up to that hop (forward_packet pops each hop):
+    before it is queued for retransmission its route is re-initialised from the channel, so that the retransmission
+    crosses every hop again (shared with C09: a packet that re-enters behind the queue that dropped it crosses that hop in
+    zero time and out of FIFO order)."""
+    fx = run.fx
+    pd = fx.fn1(T + '::packet_dropped')
+    run.touch(pd)
+    requeue = [c for op, c in q.container_calls(pd, 'm_outgoing_packets', {'push_back'})]
+    hops = [a for a in q.field_accesses(pd, {P + '::hops'}) if a.kind == 'assign']
+    src_ok = [a for a in hops if 'm_channel->hops[' in q.render(pd, a.site['args'][1] if a.site['k'] == 'call' else a.site.get('rhs'))]
+    run.check(bool(requeue) and bool(src_ok) and all(q.any_precedes(pd, [a.site for a in src_ok], r) for r in requeue), 'R4', 'retransmit-full-route', T + '::packet_dropped', pd.loc(),
+              'the dropped segment is queued for retransmission without its route being re-initialised from m_channel->hops[remote]: it still carries only the hops after the queue that dropped it, so the retransmission skips that queue and everything before it',
+              'p.hops re-assigned from the channel before the segment is queued for retransmission')
+
+
 def eval_bool(fn, n, env, subst):
     """Evaluate a boolean expression tree under env: callback atom -> bool|None."""
     n = q.strip_casts(n)
@@ -331,6 +347,7 @@ def check(run):
     sends = [c for c in ws.calls() if q.callee_name(c) == T + '::send_packet']
     run.check(bool(arm) and bool(sends) and all(q.any_precedes(ws, [a.site for a in arm], s) for s in sends), 'R4', 'armed-first', T + '::write_some_impl', ws.loc(),
               'a fresh segment is sent without p.drop_fun being assigned first: its loss is never reported', 'p.drop_fun assigned before send_packet')
+    retransmit_route_rule(run)
     arm2 = [a for a in q.field_accesses(pd, {P + '::drop_fun'}) if a.kind == 'assign']
     run.check(bool(requeue) and bool(arm2) and all(q.any_precedes(pd, [a.site for a in arm2], r) for r in requeue), 'R4', 'armed-retransmit', T + '::packet_dropped', pd.loc(),
               'the dropped segment is queued for retransmission without re-assigning p.drop_fun (the dropping hop moved it out before invoking it): a second drop of the same segment is silent and the stream stalls forever',
@@ -341,6 +358,7 @@ def check(run):
     run.clause('finite tail-drop queues: the hop\'s byte account is balanced (what the enqueue adds the dequeue subtracts), otherwise the queue fills up on paper and drops every segment (shared with C10)')
     import p10
     p10.byte_account_rule(run)
+    p10.drop_guard_rule(run)
     run.clause('R1 no closure, handler or packet field is filled by std::move of an object that a later iteration of the same loop moves again (moved-from reuse: only the first segment would carry its drop callback / only the first completion its handler)')
     nmv = engines.moved_in_loop(run, [f_ for f_ in fx.repo_functions() if f_.file.startswith(simlib.REPO_PREFIX + 'src/')])
     run.ok('R1', 'moved-from-in-loop', 'scan', '', 'std::move sites inside loops examined: %d' % nmv, nontrivial=False)
